@@ -24,7 +24,7 @@ func init() {
 			"(R7) a writer sends a constant in place of a field value only on a path that observed that field absent (nil / zero / failed type assertion of a value read from the message), never by consulting other state; " +
 			"(R8) a reader-side guard comparing a wire count with the bytes that remain admits count == remaining (an empty collection written last is valid writer output). " +
 			"(R9) the codec's pooled Reader/Writer: every state field written by the read/write methods (cursor, sticky error, buffer length) is reset on every path between release and Put or between Get and hand-out, and no function that releases a pooled writer returns (or stores into a field) a slice of that writer's buffer — an encoding must be copied out before its buffer goes back to the pool. " +
-			"(R10) no call statement of the codec packages whose callee returns an error is a bare expression statement: encoding / decoding errors are checked or discarded explicitly. (R11) every hand-over of a message to the user's Codec (Encode on the writing side, Decode on the reading side, for envelopes and for nested messages) is dominated by the same outcome of the same registry-membership test of the message's descriptor, so a registered type is never written in Codec format under its registered name. (R12) every Reader method returning (string | []byte, error) returns fresh memory on every return — a copying conversion, make/append, or another such method — never a slice of the Reader's buffer nor an unsafe.String/Slice over it: frame buffers are re-used, and a decoded value that is a view of one changes under its holder. (R13) in a registered reader no store into the message — the whole struct, or a field whose address was handed to the Reader — is reachable after the read: decoded wire content is never replaced by local content. NOT decided: value-level equality (nil vs empty map, zero time, presence-flag values), user-registered types outside the module.",
+			"(R10) no call statement of the codec packages whose callee returns an error is a bare expression statement: encoding / decoding errors are checked or discarded explicitly. (R11) every hand-over of a message to the user's Codec (Encode on the writing side, Decode on the reading side, for envelopes and for nested messages) is dominated by the same outcome of the same registry-membership test of the message's descriptor, so a registered type is never written in Codec format under its registered name. (R11, addition) in every function that hands a payload to Codec.Decode, every path to a return passes a decode or leaves with an error: no shortcut delivers nil for a payload that was not decoded. (R12) every Reader method returning (string | []byte, error) returns fresh memory on every return — a copying conversion, make/append, or another such method — never a slice of the Reader's buffer nor an unsafe.String/Slice over it: frame buffers are re-used, and a decoded value that is a view of one changes under its holder. (R13) in a registered reader no store into the message — the whole struct, or a field whose address was handed to the Reader — is reachable after the read: decoded wire content is never replaced by local content. NOT decided: value-level equality (nil vs empty map, zero time, presence-flag values), user-registered types outside the module.",
 		Assumptions: []string{"success paths: error edges (err != nil on an error-typed value) and returns of constructed errors are pruned"},
 		Rules: []Rule{
 			{ID: "C12.R1", Min: 30, Desc: "reader/writer signature agreement", Fn: c12Agreement},
